@@ -1718,6 +1718,7 @@ fn gen_two(rng: &mut Rng, thorough: bool) -> Vec<u64> {
     // stage of every conversation: (requester, stage); 0 sent, 1 linked, 2 request delivered, 3 answered, 4 done
     let mut conv: Vec<(u64, u64, u64)> = Vec::new(); // (requester, stage, link index)
     let mut nlinks = 0u64;
+    let batch = rng.chance(35);
     let mut ids = [0u64; 2];
     let mut nchans = [0u64; 2];
     for x in 0..2u64 {
@@ -1745,7 +1746,14 @@ fn gen_two(rng: &mut Rng, thorough: bool) -> Vec<u64> {
             vec![40, x, if rng.chance(25) { 23 } else { 0 }, p, rng.below(2), paylen(rng), rng.below(256), fname, flen, ftag]
         } else if roll < 86 && !conv.is_empty() {
             // move a conversation on (mostly the oldest one: the indices below count from the oldest)
-            let i = if rng.chance(70) { 0 } else { rng.below(conv.len() as u64) as usize };
+            // (in batch mode the conversation that lags behind: several requests wait for the user at once)
+            let i = if batch {
+                (0..conv.len()).min_by_key(|i| conv[*i].1).unwrap_or(0)
+            } else if rng.chance(70) {
+                0
+            } else {
+                rng.below(conv.len() as u64) as usize
+            };
             let (a, stage, link) = conv[i];
             match stage {
                 0 => {
@@ -1970,9 +1978,16 @@ pub fn main(args: &Args) {
     if args.str("replay").is_some() {
         return;
     }
+    // --kind two | flood | guided: only cases of that generator (for experiments; ./check does not use it)
+    let kind = args.str("kind");
     for _ in 0..ncases {
         let mut r = rng.fork();
-        let c = gen_case(&mut r, thorough);
+        let c = match kind {
+            Some("two") => gen_two(&mut r, thorough),
+            Some("flood") => gen_flood(&mut r, thorough),
+            Some("guided") => gen_guided(&mut r, thorough),
+            _ => gen_case(&mut r, thorough),
+        };
         let (c, t) = run_case(&c);
         out.emit(&c, &t);
     }
